@@ -88,6 +88,9 @@ Record mapper_facts := {
   mf_delta_from_object_only : bool;                        (* data.as_object()? ; the event name is not consulted *)
   mf_mismatch : list str;                                  (* the pieces of format!("event name '{event_name}' does not match type '{type_name}'") *)
   mf_mismatch_after_validation : bool;                     (* pushed after validate_stream_event's errors, iff event_name != type_name *)
+  mf_event_data_is_parsed_value : bool;                    (* ParsedEvent::event: data: Some(data) — the parsed value, not the normalised copy *)
+  mf_validation_data : bool;                               (* validation_data = if normalize_missing_item_ids { normalize_event_for_validation(&data) } else { data.clone() };
+                                                              validate_stream_event(&validation_data); response errors from validation_data.get("response") *)
   mf_raw_for_text_kinds : bool;                            (* Done / InvalidJson => raw = Some(parsed.raw.clone()), data None; Event => data = parsed.data.clone(), raw None *)
   mf_event_name_from_sse : bool;                           (* event_name: parsed.event.clone() *)
   mf_provider_then_delta : bool;                           (* map: provider frame first, then at most one OutputTextDelta *)
@@ -97,6 +100,7 @@ Definition mapper_facts_ok (f : mapper_facts) : bool :=
   lN_eqb (mf_type_key f) S_TYPE && lN_eqb (mf_delta_key f) S_DELTA && lN_eqb (mf_otd f) S_OTD
   && mf_delta_from_object_only f
   && list_eqb lN_eqb (mf_mismatch f) [M_MIS1; M_MIS2; M_MIS3] && mf_mismatch_after_validation f
+  && mf_event_data_is_parsed_value f && mf_validation_data f
   && mf_raw_for_text_kinds f && mf_event_name_from_sse f && mf_provider_then_delta f && mf_seq_from_zero_by_one f.
 
 (* OpenResponsesSsePipe (session.rs) *)
